@@ -221,3 +221,115 @@ func TestC08_Session_Replay(t *testing.T) {
 		}
 	}
 }
+
+// ---------------------------------------------------------------------------
+// C08, long-stall leg: the server stops reading for several seconds, the output
+// queue is full, and command calls with hostile arguments wait all that time
+// for a free slot. (One scenario costs the stall, so only a few are run.)
+// ---------------------------------------------------------------------------
+
+func runC08LongStall(sc *c08Session, stall time.Duration) *Violation {
+	tc := newTestClient(cliOpts{Flood: true, Nick: "me"})
+	defer tc.shutdown()
+	if err := tc.connect(); err != nil {
+		return violationf("C08", "connect: %v", err)
+	}
+	conn := tc.conn()
+	if !tc.syncOut(stallTimeout()) {
+		return violationf("C08", "registration never completed")
+	}
+	base := len(conn.Written())
+	conn.Gate(true)
+	fillDone := make(chan struct{})
+	go func() {
+		defer close(fillDone)
+		for i := 0; i < 40; i++ { // more than the queue holds: the last ones block
+			tc.C.Raw(fmt.Sprintf("FILL %d", i))
+		}
+	}()
+	time.Sleep(20 * time.Millisecond)
+	callsDone := make(chan interface{}, 1)
+	go func() {
+		defer func() { callsDone <- recover() }()
+		for i := range sc.Calls {
+			c := &sc.Calls[i]
+			for k := range c08Methods {
+				if c08Methods[k].Name == c.Method {
+					c08Methods[k].Call(tc.C, unq(c.Args), unq(c.Var))
+				}
+			}
+		}
+	}()
+	time.Sleep(stall)
+	conn.Gate(false)
+	for _, ch := range []chan struct{}{fillDone} {
+		select {
+		case <-ch:
+		case <-time.After(stallTimeout()):
+			return violationf("C08", "calls blocked behind a stalled server never returned after it resumed reading")
+		}
+	}
+	select {
+	case p := <-callsDone:
+		if p != nil {
+			return violationf("C08", "API call panicked: %v", p)
+		}
+	case <-time.After(stallTimeout()):
+		return violationf("C08", "calls blocked behind a stalled server never returned after it resumed reading")
+	}
+	if !tc.syncOut(stallTimeout()) {
+		return violationf("C08", "no answer to the final PING after a %v stall", stall)
+	}
+	lines, v := checkWholeLines("C08", conn.Written()[base:])
+	if v != nil {
+		v.Msg = fmt.Sprintf("after a %v stall with a full queue: %s", stall, v.Msg)
+		return v
+	}
+	allowed := map[string]bool{"PONG": true, "FILL": true}
+	for i := range sc.Calls {
+		for k := range c08Methods {
+			if c08Methods[k].Name == sc.Calls[i].Method {
+				allowed[c08Methods[k].Verb] = true
+			}
+		}
+	}
+	for _, l := range lines {
+		verb := l
+		if i := strings.IndexByte(l, ' '); i >= 0 {
+			verb = l[:i]
+		}
+		if !allowed[verb] {
+			return violationf("C08", "after a %v stall with a full queue a line beginning with %q reached the wire although no call made produces that verb: %q", stall, verb, l)
+		}
+	}
+	return nil
+}
+
+func TestC08_LongStall(t *testing.T) {
+	col := evid.New("C08", "long-stall leg: the server stops reading for 5.6 s while the output queue is full; 1..6 command calls with hostile arguments wait for a slot all that time; the transcript must still consist of whole lines of the verbs called; non-trivial = some argument contains CR or LF; distinct by scenario")
+	defer finish(t, col)
+	stall := time.Duration(envInt("VERIF_C08_STALL_MS", 5600)) * time.Millisecond
+	rapid.Check(t, func(t *rapid.T) {
+		sc := genC08Session(t)
+		sc.Mode = "long_stall"
+		if !sc.hasNewline() {
+			// make sure the expensive scenario is a non-trivial one
+			sc.Calls = append(sc.Calls, c08Case{Method: "Privmsg", Args: []Q{"#chan", "hello\r\nQUIT :pwn"}, SplitLen: 450})
+		}
+		v := runC08LongStall(sc, stall)
+		b, _ := json.Marshal(sc)
+		col.Case(string(b), sc.hasNewline(), "mode=long_stall")
+		col.Sample(sc)
+		if v != nil {
+			failRapid(t, "TestC08_LongStall", v, sc)
+		}
+	})
+}
+
+func TestC08_LongStall_Replay(t *testing.T) {
+	var sc c08Session
+	loadReplay(t, &sc)
+	if v := runC08LongStall(&sc, time.Duration(envInt("VERIF_C08_STALL_MS", 5600))*time.Millisecond); v != nil {
+		t.Fatalf("REPRODUCED %s", v.Msg)
+	}
+}
